@@ -32,6 +32,7 @@ NAME = st.one_of(
     st.text(alphabet=ALPHA, min_size=1, max_size=12),
     st.text(alphabet='ab 1', min_size=1, max_size=8),          # runs of blanks, leading/trailing blanks
     st.integers(1, 999).map(str),
+    st.sampled_from(['#', '##', '?', '-', '*', '+', '#1', '1#', '=', '^']),     # values that mean something special elsewhere in PBN
 )
 TAGNAME = st.text(alphabet='abcdefghijklmnopqrstuvwxyzABCDEFGHIJKLMNOPQRSTUVWXYZ', min_size=1, max_size=8).map(
     lambda s: 'X' + s).filter(lambda s: s not in ('Board', 'Dealer', 'Vulnerable', 'Deal'))
@@ -39,12 +40,17 @@ BLANK = st.sampled_from(['', '', '', ' ', '  ', '\t', ' \t '])
 ROW = st.text(alphabet='NESWCDHT0123456789 -+', min_size=1, max_size=12).filter(lambda s: s.strip() != '')
 
 
+# an additional tag whose line is exactly as long as a PBN line may be (255 characters), or a few characters shorter
+LONG_TAG = st.tuples(TAGNAME, st.integers(0, 5), st.text(alphabet=ALPHA, min_size=260, max_size=260)).map(
+    lambda t: (t[0], t[2][:255 - t[1] - len(f'[{t[0]} ""]')]))
+
+
 def pbn_board():
     return st.fixed_dictionaries({
         'id': NAME, 'dealer': st.integers(0, 3), 'vul': st.sampled_from(GB.VULS), 'spell': st.integers(0, 2),
         'owner': PL.DEAL, 'first': st.integers(0, 3),
         'order': permutations(list(range(8))),
-        'extra': st.lists(st.tuples(TAGNAME, st.text(alphabet=ALPHA, max_size=15)), max_size=4, unique_by=lambda t: t[0]),
+        'extra': st.lists(st.one_of(st.tuples(TAGNAME, st.text(alphabet=ALPHA, max_size=15)), LONG_TAG), max_size=4, unique_by=lambda t: t[0]),
         'table': st.one_of(st.none(), st.tuples(TAGNAME.map(lambda s: s + 'Table'), st.text(alphabet=ALPHA + ';\\', max_size=20),
                                                 st.lists(ROW, max_size=5))),
     })
@@ -112,6 +118,8 @@ def check_pbn(boards, layout, stats=None, tmpdir=None):
     if stats is not None:
         stats.evaluated()
         feats = []
+        if any(len(f'[{n} "{v}"]') >= 250 for b in boards for n, v in b['extra']):
+            feats.append('tag line of 250-255 characters')
         if any(len(s) >= 2 for s in layout['sep']) and len(boards) >= 2:
             feats.append('blank-line run >=2 between games')
         if layout['lead'] or (layout['header'] and layout['header_blank']):
